@@ -265,6 +265,11 @@ func checkBuild(w *kit.World, c godi.Collection) string {
 	if cyc {
 		vrt.Cover("model_cycle")
 		vrt.Assert(cls == "cycle", "C05.missed_cycle", "dependency relation has a cycle but Build reported", cls)
+		if err != nil {
+			// C15: whatever phase notices it, a circular set fails with an error that errors.As classifies
+			var cde *godi.CircularDependencyError
+			vrt.Assert(errors.As(err, &cde), "C15.unclassified_cycle", "Build failed on a circular registration set with an error that is not a CircularDependencyError:", err)
+		}
 	} else {
 		vrt.Assert(cls != "cycle", "C05.false_cycle", "Build reported a cycle on an acyclic relation")
 		// ... also not in words, through an untyped error
@@ -280,6 +285,10 @@ func checkBuild(w *kit.World, c godi.Collection) string {
 		if conflict {
 			vrt.Cover("model_conflict")
 			vrt.Assert(cls == "lifetime", "C07.missed_conflict", "a singleton/transient depends on a scoped registration but Build reported", cls)
+			if err != nil {
+				var lce *godi.LifetimeConflictError
+				vrt.Assert(errors.As(err, &lce), "C15.unclassified_conflict", "Build failed on a captive dependency with an error that is not a LifetimeConflictError:", err)
+			}
 		} else {
 			vrt.Assert(cls != "lifetime", "C07.false_conflict", "Build reported a lifetime conflict where only scoped depend on scoped")
 		}
